@@ -67,6 +67,8 @@ private def bop? (t : String) : Option (BOp Int × Nat) :=
   | ["im", xs] => (ints? xs).map fun xs => (.iterMut xs, 0)
   | ["sm", xs] => (ints? xs).map fun xs => (.slicesMut xs, 0)
   | ["drain", k] => k.toNat?.map fun k => (.drain k, 0)
+  -- the draining iterator leaked (`mem::forget`) after `k` items: what it handed out is gone all the same
+  | ["dleak", k] => k.toNat?.map fun k => (.drain k, 0)
   -- `rb.drain().nth(k)`: `k+1` steps of the draining iterator of which the client sees the last
   -- (Props/C06 `drain_nth_refines`)
   | ["dnth", k] => k.toNat?.map fun k => (.drain (k + 1), 2)
